@@ -667,7 +667,8 @@ func (fr *Frame) specCall(i *ssa.Call, callee *ssa.Function, c *Contract, args [
 		fr.applyContract(i, callee, c, args, st, g, false)
 		return
 	}
-	if !e.recursive[callee] && len(callee.Blocks) > 0 && !hasLoops(callee) {
+	rec := e.recursive[callee] && (e.specFns[callee] || e.selfRecursive(callee))
+	if !rec && len(callee.Blocks) > 0 && !hasLoops(callee) {
 		vals, _, _ := x.runFunc(callee, args, free, st, g, fr, fr.prefix, true, nil)
 		fr.setResult(i, vals, st)
 		return
@@ -689,7 +690,7 @@ func (fr *Frame) specCall(i *ssa.Call, callee *ssa.Function, c *Contract, args [
 	}
 	key := callee.Name() + "|" + fmt.Sprint(ts)
 	fuel := fr.fuel
-	if e.recursive[callee] && e.specFns[callee] && fuel > 0 && !x.unfolded[key] && x.qdepth == 0 {
+	if rec && e.specFns[callee] && fuel > 0 && !x.unfolded[key] && x.qdepth == 0 {
 		x.unfolded[key] = true
 		saved := fr.fuel
 		fr.fuel = fuel - 1
